@@ -81,6 +81,17 @@ def run(ctx):
     for nm in ("name)", "(name", "name version", "name,", ",name", "EIP712Domain(string name", "string name", "name\u0000", "name "):
         cases.append(([(nm, "string")], "foreign-name/fused-with-separator"))
         cases.append(([STD[0], (nm, "string")], "foreign-name/fused-with-separator"))
+    # names other standards use next to the domain (EIP-5267 eip712Domain(): fields, extensions), after any in-order selection
+    for k in range(0, 6):
+        for sub in itertools.combinations(STD, k):
+            for foreign in (("extensions", "uint256[]"), ("fields", "bytes1")):
+                cases.append((list(sub) + [foreign], "foreign-name/other-standards"))
+                cases.append(([foreign] + list(sub), "foreign-name/other-standards"))
+    # member types whose width is absurd (the width arithmetic must not overflow: refused like bytes33)
+    for t_ in ("bytes536870912", "bytes4294967295", "bytes4294967296", "bytes18446744073709551616", "uint4294967296", "uint4294967304", "int2147483648", "uint536870912",
+               "bytes32[4294967296]", "bytes32[18446744073709551615]", "uint256[18446744073709551616]", "bytes" + "9" * 40):
+        cases.append(([STD[0], ("salt", t_)], "substituted-type/absurd-width"))
+        cases.append(([("salt", t_)], "substituted-type/absurd-width"))
     # more members than there are standard fields: all five plus a repeated / foreign one at each position, and longer
     for pos in range(6):
         for extra in list(STD) + [("extra", "string")]:
@@ -107,8 +118,8 @@ def run(ctx):
             uniq.append((ms, cls))
     cases = uniq
     if not thorough:
-        keep = [c for c in cases if c[1].startswith("ordering") or c[1].startswith("foreign-name/fused") or c[1] == "more-than-five-members"]
-        rest = [c for c in cases if not (c[1].startswith("ordering") or c[1].startswith("foreign-name/fused") or c[1] == "more-than-five-members")]
+        keep = [c for c in cases if c[1].startswith("ordering") or c[1].startswith("foreign-name/fused") or c[1] == "more-than-five-members" or c[1] == "foreign-name/other-standards" or c[1] == "substituted-type/absurd-width"]
+        rest = [c for c in cases if not (c[1].startswith("ordering") or c[1].startswith("foreign-name/fused") or c[1] == "more-than-five-members" or c[1] == "foreign-name/other-standards" or c[1] == "substituted-type/absurd-width")]
         rng.shuffle(rest)
         cases = keep + rest[:1400]
     # one case in four signs the domain itself (primaryType EIP712Domain, message = domain): the domain check is the same
